@@ -123,6 +123,17 @@ def pdu_from_text(s):
     raise ValueError(s)
 
 
+def enqueue_blocks():
+    """which DataLinkConnection.enqueue this source has: True = a non connection-mode PDU makes it call close() in
+    every state (before fixes/c07-7), False = in state ESTABLISHED only the FRMR is queued.  Decided by running it."""
+    d = T.DataLinkConnection(128, 1)
+    d.addr, d.peer = 32, 16
+    d.state.ESTABLISHED = True
+    d.recv_queue.append(P.Disconnect(32, 16))      # so that close() of the old code finds something and does not wait
+    d.enqueue(P.UnnumberedInformation(32, 16, b''))
+    return not d.state.ESTABLISHED
+
+
 TYPES = {'raw': L.RAW_ACCESS_POINT, 'ldl': L.LOGICAL_DATA_LINK, 'dlc': L.DATA_LINK_CONNECTION}
 
 
